@@ -230,6 +230,15 @@ var Templates = []*Template{
 		},
 	},
 	{
+		// the change brings its own import
+		Name: "add-import",
+		Patch: func(k int) string {
+			return fmt.Sprintf("@@\n@@\n+import \"vf/lib%d\"\n\n-vfOld%d()\n+lib%d.New()\n", k, k, k)
+		},
+		Trigger: func(k int) string { return fmt.Sprintf("vfOld%d", k) },
+		Stmt:    func(r *world.PRNG, k int) string { return fmt.Sprintf("vfOld%d()", k) },
+	},
+	{
 		Name: "type-rename",
 		Patch: func(k int) string {
 			return fmt.Sprintf("@@\nvar T identifier\n@@\n-type VfOld%d T\n+type VfNew%d T\n", k, k)
@@ -367,7 +376,7 @@ func NearMisses(t *Template, k int) (stmts, decls []string) {
 			fmt.Sprintf("%s(1, nil, nil, 0)", trig),
 			fmt.Sprintf("%s(1, nil, nil, xs...)", trig),
 		)
-	case "package-guarded":
+	case "package-guarded", "add-import":
 		stmts = append(stmts, fmt.Sprintf("%s(1)", trig), fmt.Sprintf("%s(xs...)", trig))
 	case "funcdecl-rename":
 		decls = append(decls,
